@@ -181,6 +181,7 @@ def run(ctx):
     check_helpers(ctx)
     check_inputs_unmodified(ctx)
     check_signatures(ctx)
+    check_pareto(ctx)
 
 
 # positional parameters of the selection / noise primitives as callers know them: (name, default or None)
@@ -231,6 +232,56 @@ def check_signatures(ctx):
                '%s: positional callers bind (%s); %s' % (q, ', '.join(p for p, _ in want), '; '.join(bad) or 'positions and defaults kept'),
                construct='signature of ' + q)
     ctx.counters['signatures'] = n
+
+
+def check_pareto(ctx):
+    """pareto_efficient(costs) limits which candidates a generalized-exponential-mechanism score is compared against: the points no other
+    point beats in BOTH cost columns.  Recognised: the shrinking-mask loop of the original; or, for two columns, a sweep in lexicographic
+    order - sorted primarily by one column (numpy.lexsort sorts by its LAST key first), a point is kept iff its value in the OTHER column
+    is below the running minimum of the points before it.  Sorting primarily by the very column the sweep compares collapses the front to
+    (almost) a single point."""
+    if not ctx.repo.has_func(MECH, 'pareto_efficient'):
+        raise AnalysisError('anchor vanished: pareto_efficient')
+    fi = ctx.repo.func(MECH, 'pareto_efficient')
+    ctx.analysed(fi)
+    c = fi.params[0]
+    src = U(fi.node)
+    from ..srcmodel import alpha_text
+    loops = [x for x in ast.walk(fi.node) if isinstance(x, ast.For)]
+    if loops:
+        # the original: for i, c_ in enumerate(costs): if eff[i]: eff[eff] = np.any(costs[eff] <= c_, axis=1)
+        stores = [a_ for a_ in ast.walk(loops[0]) if isinstance(a_, ast.Assign) and isinstance(a_.targets[0], ast.Subscript)]
+        ok = len(loops) == 1 and len(stores) == 1 and U(stores[0].value).replace(' ', '').startswith('np.any(%s[' % c) and 'axis=1' in U(stores[0].value).replace(' ', '') \
+            and any(isinstance(x, ast.Compare) and isinstance(x.ops[0], ast.LtE) for x in ast.walk(stores[0].value))
+        if not ok:
+            raise AnalysisError('pareto_efficient: the mask loop is in no recognised form')
+        ctx.ob('pareto-front', fi, stores[0], True, 'shrinking-mask loop: a point stays while some cost of it is <= the pivot\'s')
+        return
+    ls = [x for x in ast.walk(fi.node) if isinstance(x, ast.Call) and U(x.func) in ('np.lexsort', 'numpy.lexsort') and len(x.args) == 1
+          and isinstance(x.args[0], (ast.Tuple, ast.List)) and len(x.args[0].elts) == 2]
+    if len(ls) != 1:
+        raise AnalysisError('pareto_efficient: neither the mask loop nor a lexicographic sweep')
+    import re
+    keys = [U(k).replace(' ', '') for k in ls[0].args[0].elts]
+    col = lambda t: (re.fullmatch(re.escape(c) + r'\[:,(\d)\]', t) or [None, None])[1]
+    k0, k1 = col(keys[0]), col(keys[1])
+    if k0 is None or k1 is None or {k0, k1} != {'0', '1'}:
+        raise AnalysisError('pareto_efficient: lexsort keys `%s` are in no recognised form' % keys)
+    primary = k1                       # the LAST key is the primary sort key
+    order = [a_.targets[0].id for a_ in ast.walk(fi.node) if isinstance(a_, ast.Assign) and a_.value is ls[0] and isinstance(a_.targets[0], ast.Name)]
+    if not order:
+        raise AnalysisError('pareto_efficient: the sort order is not kept in a local')
+    swept = [re.fullmatch(re.escape(c) + r'\[' + order[0] + r',(\d)\]', U(a_.value).replace(' ', '')) for a_ in ast.walk(fi.node) if isinstance(a_, ast.Assign)]
+    swept = [m_.group(1) for m_ in swept if m_]
+    acc = [x for x in ast.walk(fi.node) if isinstance(x, ast.Call) and U(x.func) in ('np.minimum.accumulate', 'numpy.minimum.accumulate')]
+    if len(swept) != 1 or len(acc) != 1:
+        raise AnalysisError('pareto_efficient: the sweep over the sorted points is in no recognised form')
+    strict = any(isinstance(x, ast.Compare) and isinstance(x.ops[0], ast.Lt) for x in ast.walk(fi.node))
+    ctx.ob('pareto-front', fi, ls[0], swept[0] != primary and strict,
+           'sweep in lexicographic order: sorted primarily by column %s (the last key of lexsort), a point is kept iff its column-%s cost is strictly below the '
+           'running minimum before it%s' % (primary, swept[0], '' if swept[0] != primary else
+           ': the sweep compares the very column the points are sorted by, so only the first point of the order survives (plus ties) - the front '
+           'collapses and the scores are compared against the wrong candidates'), construct='lexicographic sweep of pareto_efficient')
 
 
 def check_primitive(ctx, fi, spec, flags):
